@@ -29,6 +29,14 @@ Theorem C20_filepathJoin_real_refuted : exists f, wf f = true /\ exists w, In w 
 Proof. exact filepathJoin_real_refuted. Qed.
 Print Assumptions C20_filepathJoin_real_refuted.
 
+Theorem C20_truncateCmp_real_refuted : exists f, wf f = true /\ exists w, In w (warnings (run_truncateCmp true f)) /\ is_real w = false.
+Proof. exact truncateCmp_real_refuted. Qed.
+Print Assumptions C20_truncateCmp_real_refuted.
+
+Theorem C20_nilValReturn_real_refuted : exists f, wf f = true /\ exists w, In w (warnings (run_nilValReturn f)) /\ is_real w = false.
+Proof. exact nilValReturn_real_refuted. Qed.
+Print Assumptions C20_nilValReturn_real_refuted.
+
 Theorem C20_newDeref_real_partial : forall f, all_nodes_sat (g_no_namesake_bare "new") f -> forall w, In w (warnings (run_newDeref f)) -> is_real w = true.
 Proof. exact (fun f G w H => newDeref_real_partial f w G H). Qed.
 Print Assumptions C20_newDeref_real_partial.
